@@ -103,7 +103,7 @@ class C02(Profile):
             rng, engines=["sql"],
             weights={**UNARY_W, "chain": 2, "join": 3, "leaf": 1.5},
             max_ops=14 if big else 9, nleaves=(2, 4), hidden_p=0.3, udf_p=0.05,
-            bounds=("exact", "loose", "zeromin", "unbounded"), special_leaf_p=0.05, adjacent_p=0.3,
+            bounds=("exact", "loose", "zeromin", "unbounded"), special_leaf_p=0.05, adjacent_p=0.3, pipeline_p=0.4,
         )
         return {"config": swarm_config(rng), "ops": g.build()}
 
@@ -268,7 +268,7 @@ class C05(Profile):
         eng = rng.choice(["it", "sql"])
         g = Gen(rng, engines=[eng],
                 weights={"calc": 2, "proj": 3, "sel": 3, "dedup": 1, "sort": 3, "slice": 4, "chain": 0.5, "leaf": 0.5},
-                max_ops=14 if big else 9, nleaves=(1, 2), adjacent_p=0.6, total_sort_p=0.3)
+                max_ops=14 if big else 9, nleaves=(1, 2), adjacent_p=0.6, total_sort_p=0.3, pipeline_p=0.3)
         return {"config": swarm_config(rng), "ops": g.build()}
 
     def dn_keys(self, run):
@@ -369,12 +369,15 @@ class C08(Profile):
 
     def gen(self, rng, tier):
         big = tier == "thorough"
-        mode = rng.choice(["sql", "sql", "it", "multi"])
+        mode = rng.choice(["sql", "sql", "it", "multi", "it2"])
         if mode == "multi":
-            return multi_gen(rng, tier, weights={**MULTI_W, "join": 2, "chain": 2}, flags_p=0.3)
+            return multi_gen(rng, tier, weights={**MULTI_W, "join": 2, "chain": 2}, flags_p=0.3, udf_p=0.08)
+        if mode == "it2":
+            return multi_gen(rng, tier, weights={**MULTI_W, "join": 0.3, "chain": 2, "xfer": 5}, flags_p=0.2, udf_p=0.15,
+                             engines=["it", "it2"])
         w = {**UNARY_W, "chain": 3, "join": 3, "leaf": 1.5, "mat": 0.3}
         g = Gen(rng, engines=[mode], weights=w, max_ops=14 if big else 9, nleaves=(2, 4), hidden_p=0.15,
-                special_leaf_p=0.05)
+                special_leaf_p=0.05, pipeline_p=0.3)
         return {"config": swarm_config(rng), "ops": g.build()}
 
     def dn_keys(self, run):
@@ -471,7 +474,8 @@ class C11(Profile):
         g = Gen(rng, engines=["sql"],
                 weights={"calc": 1.5, "proj": 3, "sel": 1.5, "dedup": 2.5, "sort": 5, "slice": 5, "chain": 1.5, "join": 1.5,
                          "mat": 1.2, "leaf": 1},
-                max_ops=13 if big else 9, nleaves=(1, 3), total_sort_p=0.7, allow_pending_binary=0.5, adjacent_p=0.25)
+                max_ops=13 if big else 9, nleaves=(1, 3), total_sort_p=0.7, allow_pending_binary=0.5, adjacent_p=0.25,
+                pipeline_p=0.4)
         return {"config": swarm_config(rng), "ops": g.build()}
 
     def dn_keys(self, run):
@@ -585,7 +589,7 @@ class C17(Profile):
     prop = "C17"
     eval_stats = ('conform_checked', 'raw_conformed', 'selects_checked')
     claims = {k: "C17" for k in ("factory_not_conformed", "conform_not_idempotent", "select_incoherent", "conform_exception",
-                                 "rows_mismatch")}
+                                 "rows_mismatch", "columns_mismatch", "keys_mismatch")}
     both_orders = True
     dn_rule = ("SQL trees built through the API, raw trees assembled bottom-up with the dataclass constructors and conformed, "
                "and trees returned by process(); distinct = library tree shapes (Select nesting included) that were checked")
@@ -596,7 +600,8 @@ class C17(Profile):
         self.new_entry_hooks = (oracles.conformed,)
 
     def claim(self, kind, entry, run, v):
-        if kind == "rows_mismatch" and (entry is None or entry.op["k"] not in ("rawtree", "conform_inner")):
+        if kind in ("rows_mismatch", "columns_mismatch", "keys_mismatch") and \
+                (entry is None or entry.op["k"] not in ("rawtree", "conform_inner")):
             return None
         return self.claims.get(kind)
 
@@ -607,7 +612,7 @@ class C17(Profile):
             return multi_gen(rng, tier, weights=w, flags_p=0.3, engines=["sql", "it"])
         g = Gen(rng, engines=["sql"], weights={**UNARY_W, "chain": 2, "join": 2, "leaf": 1, "rawtree": 4, "conform_inner": 1,
                                                "mat": 0.7, "process": 0.7},
-                max_ops=14 if big else 10, nleaves=(1, 3), adjacent_p=0.35)
+                max_ops=14 if big else 10, nleaves=(1, 3), adjacent_p=0.35, pipeline_p=0.4)
         return {"config": swarm_config(rng), "ops": g.build()}
 
     def dn_keys(self, run):
